@@ -221,5 +221,5 @@ Fixpoint tags_from (d : lock) (i : nat) (ops : list (list op)) : bool :=
   end.
 Definition run_wf (r : run) : bool :=
   forallb (forallb op_no_core_txn) (r_ops r)
-  && forallb (fun p => tags_from (fst p) 0 (r_ops r)) (r_feeds r).
+  && forallb (fun p => if is_ds (fst p) then tags_from (fst p) 0 (r_ops r) else true) (r_feeds r).
 Definition case_wf (c : tcase) : bool := forallb run_wf (c_runs c).
